@@ -18,7 +18,24 @@ Extra oracles: (a) results of NEW templates recorded during the run are recomput
 must not depend on what other templates rendered before: class / module level state); (b) optional-name idioms whose expected
 output is computed by a Python reference, rendered over a sequence of namespaces on one template object and as the body of a
 dtml-in over the same namespaces as mappings.
-Correspondence: the Lean state machine (op "tmpl") vs the real object after every operation: raw, globals, _vars, presence
+Calling conventions (round 7): histories whose renders use every form of t(client, mapping, **kw): client = None / one object /
+a tuple ("path") of 0..3 objects with the attributes spread over the path (and some at several positions); mapping = dict /
+None / a mapping object that is not a dict / the namespace of a calling template (a TemplateDict with 2 or 3 layers, level 0 / 3,
+or at the recursion limit where the call is refused).  After every call the caller's namespace is taken apart with _pop: it
+must consist of exactly the caller's own layer objects, in order, at the old level.  (c) templates that render templates on
+their own namespace (<dtml-var "s(clients, _, **kw)">, <dtml-var s>, s(clients, {..}) with a namespace of its own; inside
+dtml-with / dtml-in mapping / dtml-let / dtml-try; sub-templates with defaults, var() variables, dtml-return, missing names,
+calls of further sub-templates): the expected text comes from a name-lookup reference written here (layers searched from the
+top).  (d) file-based templates over histories incl. "the file is rewritten": each render equals a STRING template of the content
+the file had when the template was last compiled; pickles hold the file name and none of the contents.  (e) operations that
+OVERLAP in time (run_overlapped: one thread is stopped after k source lines of the package -- the yield points of
+harness/sched.py --, the other one runs): a render by another thread at sampled lines inside cook / munge(same source) /
+munge(other source) / pickle / deepcopy of the same object (HTML, guarded HTML, HTMLFile), and the operation run in the middle
+of a render: the render equals a new template from the source and defaults before or after the
+operation, never anything in between; afterwards the object renders like a new one.  Left out (known finding
+C17-getstate-while-first-render): pickle / deepcopy stopped part-way while the other thread's FIRST render compiles the template.
+Correspondence: the Lean state machine (op "tmpl") vs the real object after every operation (the calling-convention histories
+included: the convention is part of the model's opaque input): raw, globals, _vars, presence
 of compiled data; the model's (program, defaults, variables, inputs) of each call determine the same output.
 """
 import copy
@@ -28,6 +45,7 @@ import pickle
 import re
 import sys
 import tempfile
+import threading
 
 import common
 
@@ -220,15 +238,52 @@ def gen_value(r, name):
     return r.randrange(len(VALUES[name]))
 
 
-def gen_inputs(r, src=None, p_bind=0.6):
+MAPPING_KINDS = ['dict', "the caller's namespace (TemplateDict, two layers)", 'None (everything as keyword arguments)',
+                 'mapping object that is not a dict', "the caller's namespace (TemplateDict, three layers, level 3)",
+                 "the caller's namespace at recursion level 201 (the call is refused: 'infinite recursion')"]
+
+
+def gen_convention(r, inp):
+    """the calling convention of one render: how many clients (a single object, or a tuple -- a "path" -- of 0..3 objects, with
+    the client attributes spread over the path, some of them at several positions) and what kind of mapping"""
+    n = -1
+    if r.random() < 0.75:
+        n = r.choice((0, 1, 2, 2, 3))
+        inp.append(['@client', n])
+        if n:
+            names = [e[0][2:] for e in inp if e[0].startswith('c:')]
+            for e in inp:
+                if e[0].startswith('c:') and r.random() < 0.7:
+                    e[0] = 'c%d:%s' % (r.randrange(n), e[0][2:])
+            for name in names:
+                if r.random() < 0.4:
+                    inp.append(['c%d:%s' % (r.randrange(n), name), gen_value(r, name)])
+    if n == 0:
+        # an empty tuple with anything but the caller's namespace is refused (IndexError) before anything is rendered
+        inp.append(['@mapping', r.choice((1, 4, 1, 4, 0, 2, 5))])
+    elif r.random() < 0.75:
+        inp.append(['@mapping', r.choice((1, 1, 2, 3, 4, 4, 1, 4, 5))])
+    return inp
+
+
+def gen_inputs(r, src=None, p_bind=0.6, conv=0.0):
     """a partial namespace for source `src`: [key, code] pairs; key = name (keyword argument), 'm:name' (in the mapping),
-    'c:name' (attribute of the client), '-name' (left out of the base mapping)"""
+    'c:name' (attribute of the client), 'cK:name' (attribute of element K of a tuple of clients), '-name' (left out of the base
+    mapping), '@client' (code = number of clients in the tuple), '@mapping' (code = kind of mapping, MAPPING_KINDS)"""
     used = USED[src] if src is not None else set()
+    if conv:
+        # more names bound through the mapping and the clients
+        inp = _gen_inputs(r, used, p_bind, 0.4, 0.65)
+        return gen_convention(r, inp) if r.random() < conv else inp
+    return _gen_inputs(r, used, p_bind, 0.7, 0.85)
+
+
+def _gen_inputs(r, used, p_bind, c_kw, c_map):
     inp = []
 
     def bind(name):
         c = r.random()
-        where = '' if c < 0.7 else ('m:' if c < 0.85 else 'c:')
+        where = '' if c < c_kw else ('m:' if c < c_map else 'c:')
         inp.append([where + name, gen_value(r, name)])
     for name in ('k', 'k2'):
         if r.random() < 0.9:
@@ -248,12 +303,12 @@ def gen_inputs(r, src=None, p_bind=0.6):
 NON_RENDER = ('pickle', 'deepcopy', 'cook')
 
 
-def gen_history(r, maxlen, src):
+def gen_history(r, maxlen, src, conv=0.0):
     ops = []
     for _ in range(r.randint(2, maxlen)):
         c = r.random()
         if c < 0.45:
-            ops.append(['render', gen_inputs(r, src)])
+            ops.append(['render', gen_inputs(r, src, conv=conv)])
         elif c < 0.55:
             ops.append(['pickle'])
         elif c < 0.62:
@@ -272,7 +327,7 @@ def gen_history(r, maxlen, src):
             ops.append(['var', gen_dict(r)])
         else:
             ops.append(['default', gen_dict(r)])
-    ops.append(['render', gen_inputs(r, src)])
+    ops.append(['render', gen_inputs(r, src, conv=conv)])
     return ops
 
 
@@ -308,40 +363,138 @@ def apply_persistent(t, op):
         t.default(**dict(op[1]))
 
 
+class NsMap:
+    """a mapping object that is not a dict"""
+
+    def __init__(self, d):
+        self.d = d
+
+    def __getitem__(self, k):
+        return self.d[k]
+
+    def __len__(self):
+        return len(self.d)
+
+    def keys(self):
+        return self.d.keys()
+
+
+CKEY = re.compile(r'c(\d):(.*)$')
+
+
+def caller_namespace(t, layers, level):
+    """the namespace of a template that calls `t` as a sub-template ( <dtml-var "t(client, _)"> ): a TemplateDict as
+    String.__call__ makes one for a top level rendering, holding the caller's data in `layers`"""
+    from DocumentTemplate._DocumentTemplate import TemplateDict
+    md = TemplateDict()
+    for layer in layers:
+        md._push(layer)
+    md.guarded_getattr = t.guarded_getattr
+    md.guarded_getitem = t.guarded_getitem
+    md.level = level
+    return md
+
+
+def namespace_damage(md, layers, level):
+    """what a call left behind on the caller's namespace: the layers are taken off one by one (the documented _pop returns the
+    layer it removes) and must be exactly the caller's own objects, in order, and nothing else; then they are put back"""
+    bad = []
+    if md.level != level:
+        bad.append("the recursion level of the caller's namespace is %r, it was %r" % (md.level, level))
+    got = []
+    for _ in range(len(layers) + 8):
+        try:
+            got.append(md._pop())
+        except IndexError:
+            break
+    got.reverse()
+    if len(got) != len(layers) or any(a is not b for a, b in zip(got, layers)):
+        extra = [canon(g) for g in got if not any(g is l_ for l_ in layers)]
+        lost = [i for i, l_ in enumerate(layers) if not any(g is l_ for g in got)]
+        bad.append("the caller's namespace (a TemplateDict with %d layers) was modified by the call: %d layer(s) afterwards%s%s"
+                   % (len(layers), len(got), ', left on it: %s' % ', '.join(extra)[:200] if extra else '',
+                      ', removed from it: layer(s) %r' % lost if lost else ''))
+    for layer in layers:
+        md._push(layer)
+    return bad
+
+
 def call(t, inputs, subs=None):
-    """one call t(client, mapping, **kw) with the namespace that `inputs` describes; returns the outcome, the call log and
-    what the call changed in the caller's data"""
+    """one call t(client, mapping, **kw) with the namespace and the calling convention that `inputs` describes; returns the
+    outcome, the call log and what the call changed in the caller's data"""
     calls = []
     if subs is None:
         subs = new_subs(type(t))
     ns = base_inputs(calls, subs)
     ns['me'] = t
-    kw, attrs = {}, {}
+    kw, attrs, upper = {}, {}, {}
+    nclient, mapkind, path = -1, 0, {}
     for key, code in inputs:
-        if key.startswith('-'):
+        m = CKEY.match(key)
+        if key == '@client':
+            nclient = code
+        elif key == '@mapping':
+            mapkind = code
+        elif m:
+            path.setdefault(int(m.group(1)), {})[m.group(2)] = decode(m.group(2), code, calls)
+        elif key.startswith('-'):
             ns.pop(key[1:], None)
         elif key.startswith('m:'):
-            ns[key[2:]] = decode(key[2:], code, calls)
+            upper[key[2:]] = decode(key[2:], code, calls)
         elif key.startswith('c:'):
             attrs[key[2:]] = decode(key[2:], code, calls)
         else:
             kw[key] = decode(key, code, calls)
-    client = Client(attrs) if attrs else None
-    snap_ns = canon(copy.deepcopy({k: v for k, v in ns.items() if k not in NOT_DATA}))
-    snap_kw = canon(copy.deepcopy(kw))
-    snap_client = canon(copy.deepcopy(attrs))
-    names_ns, names_kw = sorted(ns), sorted(kw)
+    # the client: None, one object, or a tuple of objects
+    if nclient < 0:
+        objs = [Client(attrs)] if attrs else []
+        client = objs[0] if objs else None
+    else:
+        objs = [Client({}) for _ in range(nclient)]
+        for i, a in path.items():
+            if objs:
+                objs[i % nclient].__dict__.update(a)
+        if objs:
+            objs[-1].__dict__.update(attrs)
+        client = tuple(objs)
+    # the mapping
+    layers, md, level = None, None, 0
+    if mapkind in (1, 4, 5):
+        layers = [{}, ns, upper] if mapkind == 4 else [ns, upper]
+        level = {1: 0, 4: 3, 5: 201}[mapkind]
+        mapping = md = caller_namespace(t, layers, level)
+        data = [ns, upper]
+    else:
+        ns.update(upper)
+        data = [ns]
+        if mapkind == 2:
+            for k_, v in ns.items():
+                kw.setdefault(k_, v)
+            mapping, data = None, []
+        elif mapkind == 3:
+            mapping = NsMap(ns)
+        else:
+            mapping = ns
+
+    def visible(d):
+        return {k_: v for k_, v in d.items() if k_ not in NOT_DATA}
+    snap_ns = canon(copy.deepcopy([visible(d) for d in data]))
+    snap_kw = canon(copy.deepcopy(visible(kw)))
+    snap_client = canon(copy.deepcopy([o.__dict__ for o in objs]))
+    names_ns, names_kw = [sorted(d) for d in data], sorted(kw)
     try:
-        out = {'ok': t(client, ns, **kw)}
+        out = {'ok': t(client, mapping, **kw)}
     except Exception as e:  # noqa
         out = {'raise': '%s: %s' % (type(e).__name__, ADDR.sub('', str(e))[:120])}
     changed = []
-    if canon({k: v for k, v in ns.items() if k not in NOT_DATA}) != snap_ns or sorted(ns) != names_ns:
+    if canon([visible(d) for d in data]) != snap_ns or [sorted(d) for d in data] != names_ns:
         changed.append('the call mapping / its sequences were modified')
-    if canon(kw) != snap_kw or sorted(kw) != names_kw:
+    if canon(visible(kw)) != snap_kw or sorted(kw) != names_kw:
         changed.append('the keyword values were modified')
-    if client is not None and canon(client.__dict__) != snap_client:
-        changed.append('the client object was modified')
+    if canon([o.__dict__ for o in objs]) != snap_client:
+        changed.append('the client object(s) were modified')
+    if md is not None:
+        changed += namespace_damage(md, layers, level)
     return out, calls, changed
 
 
@@ -353,10 +506,20 @@ def same(a, b):
 def bound_names(inputs):
     b = {}
     for key, code in inputs:
-        if not key.startswith('-'):
+        if key[0] not in '-@':
             name = key.split(':')[-1]
             b[name] = type_of(name, code)
     return b
+
+
+def binding_kind(key):
+    if key[0] == '@':
+        return None
+    if CKEY.match(key):
+        return 'element of a tuple of clients'
+    if ':' not in key and key[0] != '-':
+        return 'keyword'
+    return {'m': 'mapping', 'c': 'client', '-': 'base name left out'}[key[0]]
 
 
 def run_history(init, ops, model_states, res, cls_idx=0, fresh_log=None):
@@ -575,6 +738,522 @@ def idiom_check(res, r, n):
                                             % (got, got_log, want, want_log)})
 
 
+# ---------------------------------------------------------------------------------------------------------------------
+# templates that render other templates on their own namespace: <dtml-var "sub(clients, _, **kw)">, <dtml-var sub>.
+# Whatever the called template puts on the caller's namespace for its own rendering (its defaults, the client or every element
+# of a tuple of clients, its variables, the keyword arguments) is gone afterwards, on every way out.  Expected texts come from
+# a reference for name lookup written here: a list of layers searched from the top (documented order of String.__call__:
+# keyword arguments, the client(s) -- of a tuple the last one first --, the mapping, the defaults).
+
+class Missing(Exception):
+    pass
+
+
+class Returned(Exception):
+    def __init__(self, v):
+        self.v = v
+
+
+class Ob:
+    def __init__(self, attrs):
+        self.__dict__.update(attrs)
+
+    def __repr__(self):
+        return 'Ob(%r)' % sorted(self.__dict__.items())
+
+    def __deepcopy__(self, memo):
+        return Ob(copy.deepcopy(self.__dict__, memo))
+
+
+PNAMES = ['p', 'q', 'r']
+SUBNAMES = ['s1', 's2', 's3']
+OBNAMES = ['o1', 'o2', 'o3']
+
+
+def ns_lookup(stack, name):
+    for layer in reversed(stack):
+        d = layer if isinstance(layer, dict) else layer.__dict__
+        if name in d:
+            return d[name]
+    raise Missing(name)
+
+
+def part_src(n):
+    k = n[0]
+    if k == 'lit':
+        return n[1]
+    if k == 'probe':
+        return '<dtml-var %s missing="M">' % n[1]
+    if k == 'must':
+        return '<dtml-var %s>' % n[1]
+    if k == 'ret':
+        return '<dtml-return %s>' % n[1]
+    if k == 'call':
+        _, sub, clients, kw, form, mp = n
+        if form == 'name':
+            return '<dtml-var %s>' % sub
+        cl = ('None' if clients is None else clients if isinstance(clients, str) else
+              '(%s)' % (', '.join(clients) + (',' if len(clients) == 1 else '')))
+        m = '_' if form == 'shared' else '{%s}' % ', '.join('%r: %d' % e for e in sorted(mp.items()))
+        return '<dtml-var expr="%s(%s, %s%s)">' % (sub, cl, m, ''.join(', %s=%d' % e for e in sorted(kw.items())))
+    if k == 'with':
+        return '<dtml-with %s>%s</dtml-with>' % (n[1], parts_src(n[2]))
+    if k == 'in':
+        return '<dtml-in rows mapping>%s</dtml-in>' % parts_src(n[1])
+    if k == 'let':
+        return '<dtml-let %s="%d">%s</dtml-let>' % (n[1], n[2], parts_src(n[3]))
+    if k == 'try':
+        return '<dtml-try>%s<dtml-except>E</dtml-try>' % parts_src(n[1])
+    raise ValueError(k)
+
+
+def parts_src(parts):
+    return ''.join(part_src(n) for n in parts)
+
+
+def parts_ref(parts, stack, specs):
+    return ''.join(part_ref(n, stack, specs) for n in parts)
+
+
+def part_ref(n, stack, specs):
+    k = n[0]
+    if k == 'lit':
+        return n[1]
+    if k == 'probe':
+        try:
+            return str(ns_lookup(stack, n[1]))
+        except Missing:
+            return 'M'
+    if k == 'must':
+        return str(ns_lookup(stack, n[1]))
+    if k == 'ret':
+        raise Returned(ns_lookup(stack, n[1]))
+    if k == 'call':
+        _, sub, clients, kw, form, mp = n
+        spec = specs[id(ns_lookup(stack, sub))]
+        if form == 'name':
+            clients, kw = None, {}
+        obs = ([] if clients is None else [ns_lookup(stack, clients)] if isinstance(clients, str) else
+               [ns_lookup(stack, o) for o in clients])
+        if form == 'own' and clients == ():
+            raise Missing('an empty tuple of clients is refused unless the mapping is a namespace')
+        # defaults, [mapping,] client(s) in order, variables, keyword arguments
+        pushed = [spec['defaults']] + ([mp] if form == 'own' else []) + obs + [spec['vars'], kw]
+        inner = (stack if form != 'own' else []) + [l_ for l_ in pushed if not isinstance(l_, dict) or l_]
+        try:
+            return str(parts_ref(spec['body'], inner, specs))
+        except Returned as e:
+            return str(e.v)
+    if k == 'with':
+        return parts_ref(n[2], stack + [ns_lookup(stack, n[1])], specs)
+    if k == 'in':
+        return ''.join(parts_ref(n[1], stack + [row], specs) for row in ns_lookup(stack, 'rows'))
+    if k == 'let':
+        return parts_ref(n[3], stack + [{n[1]: n[2]}], specs)
+    if k == 'try':
+        try:
+            return parts_ref(n[1], stack, specs)
+        except Missing:
+            return 'E'
+    raise ValueError(k)
+
+
+def gen_pdict(r, p=0.5):
+    return {x: r.randint(0, 9) for x in PNAMES if r.random() < p}
+
+
+def gen_parts(r, level, depth, in_try=False):
+    """level: 0 = the outer template, i = sub-template s<i> (it may call s<j>, j > i)"""
+    parts = []
+    for _ in range(r.randint(2, 4) if depth == 0 else r.randint(1, 3)):
+        c = r.random()
+        callable_subs = SUBNAMES[level:]
+        if c < 0.38 and callable_subs:
+            sub = r.choice(callable_subs)
+            form = r.choice(('shared', 'shared', 'shared', 'shared', 'name'))
+            if sub == SUBNAMES[-1] and r.random() < 0.4:
+                form = 'own'        # a namespace of its own: only the last sub-template (it needs no other name) is called so
+            n = r.choice((None, 1, 0, 1, 2, 2, 2, 3))
+            clients = None if n is None else tuple(r.choice(OBNAMES) for _ in range(n))
+            if n == 1 and r.random() < 0.5:
+                clients = clients[0]
+            if form == 'own' and clients == () and r.random() < 0.8:
+                clients = None
+            parts.append(('call', sub, clients, gen_pdict(r, 0.25), form, gen_pdict(r, 0.4)))
+        elif c < 0.64:
+            parts.append(('probe', r.choice(PNAMES)))
+        elif c < 0.67:
+            parts.append(('must', r.choice(PNAMES)))
+        elif c < 0.70 and level > 0 and not in_try:
+            parts.append(('ret', r.choice(PNAMES)))
+        elif depth < 2:
+            k = r.choice(('with', 'in', 'let', 'try') if level < len(SUBNAMES) else ('let', 'try'))
+            inner = gen_parts(r, level, depth + 1, in_try or k == 'try')
+            parts.append({'with': ('with', r.choice(OBNAMES), inner), 'in': ('in', inner),
+                          'let': ('let', r.choice(PNAMES), r.randint(10, 19), inner), 'try': ('try', inner)}[k])
+        else:
+            parts.append(('lit', r.choice(('-', '.', ' '))))
+        parts.append(('lit', r.choice('|/;,')))
+    return parts
+
+
+def subcall_check(res, r, n):
+    classes = template_classes()
+    for case in range(n):
+        cls_idx = case % 2
+        cls = classes[cls_idx]
+        bodies = [gen_parts(r, i + 1, 0) for i in range(len(SUBNAMES))]
+        outer_parts = gen_parts(r, 0, 0)
+        if not any(p[0] == 'call' for p in outer_parts):
+            outer_parts.insert(r.randrange(len(outer_parts) + 1), ('call', 's1', ('o1', 'o2'), {}, 'shared', {}))
+        specs, subs = {}, {}
+        for name, body in zip(SUBNAMES, bodies):
+            spec = {'body': body, 'defaults': gen_pdict(r, 0.3), 'vars': gen_pdict(r, 0.15), 'source': '[%s]' % parts_src(body)}
+            spec['body'] = [('lit', '[')] + body + [('lit', ']')]
+            t = cls(spec['source'], **dict(spec['defaults']))
+            if spec['vars']:
+                t.var(**dict(spec['vars']))
+            subs[name] = t
+            specs[id(t)] = spec
+        outer_defaults = gen_pdict(r, 0.25)
+        source = parts_src(outer_parts)
+        outer = cls(source, **dict(outer_defaults))
+        res.evaluations += 1
+        res.count('templates rendering templates on their own namespace')
+        res.nt(('subcall', source, tuple(specs[id(subs[s_])]['source'] for s_ in SUBNAMES)))
+        for p in outer_parts + [q for b in bodies for q in b]:
+            if p[0] == 'call':
+                res.count('sub-template call: %s, client=%s' % (
+                    {'shared': 's(client, _, **kw)', 'name': '<dtml-var s>', 'own': 's(client, {..}, **kw)'}[p[4]],
+                    'None' if p[2] is None or p[4] == 'name' else 'one object' if isinstance(p[2], str) else 'tuple of %d' % len(p[2])))
+        show = {'class': CLASS_NAMES[cls_idx], 'source': source, 'defaults': outer_defaults,
+                'sub-templates': {s_: {k_: specs[id(subs[s_])][k_] for k_ in ('source', 'defaults', 'vars')} for s_ in SUBNAMES}}
+        for j in range(r.randint(2, 3)):
+            mapping = dict(subs)
+            mapping.update({o: Ob(gen_pdict(r, 0.5)) for o in OBNAMES})
+            mapping['rows'] = [gen_pdict(r, 0.4) for _ in range(r.randint(0, 3))]
+            mapping.update(gen_pdict(r, 0.65))
+            kw = gen_pdict(r, 0.3)
+            nc = r.choice((None, None, 1, 2))
+            cobs = [Ob(gen_pdict(r, 0.4)) for _ in range(nc or 0)]
+            client = None if nc is None else cobs[0] if nc == 1 and r.random() < 0.5 else tuple(cobs)
+            stack = [l_ for l_ in [outer_defaults, mapping] + cobs + [kw] if not isinstance(l_, dict) or l_]
+            try:
+                want = parts_ref(outer_parts, stack, specs)
+            except Missing:
+                want = 'an exception'
+
+            def data():
+                return canon([{k_: v for k_, v in mapping.items() if k_ not in SUBNAMES}, kw, cobs,
+                              [subs[s_].globals for s_ in SUBNAMES], [subs[s_]._vars for s_ in SUBNAMES], outer.globals])
+            before = data()
+            gots = []
+            for rep in range(2):
+                try:
+                    got = outer(client, mapping, **kw)
+                except Exception as e:  # noqa
+                    got = 'an exception'
+                    err = '%s: %s' % (type(e).__name__, ADDR.sub('', str(e))[:100])
+                gots.append(got)
+            inputs = {'client': canon(client), 'mapping': canon({k_: v for k_, v in mapping.items() if k_ not in SUBNAMES}), 'kw': kw}
+            if gots[0] != want:
+                res.oracle_fail.append({'case': dict(show, render=j, inputs=inputs),
+                                        'what': 'a template that renders sub-templates on its own namespace gives %r%s; with every name looked '
+                                                'up in keyword arguments, clients (last of a tuple first), mapping, defaults -- the called '
+                                                'template\'s own layers gone after each call -- it is %r'
+                                                % (gots[0], ' (%s)' % err if gots[0] == 'an exception' else '', want)})
+                break
+            if gots[1] != gots[0]:
+                res.oracle_fail.append({'case': dict(show, render=j, inputs=inputs),
+                                        'what': 'two renders with equal inputs differ: %r vs %r' % (gots[0], gots[1])})
+                break
+            if data() != before:
+                res.oracle_fail.append({'case': dict(show, render=j, inputs=inputs),
+                                        'what': 'rendering modified the caller\'s data or the defaults of a template: %s -> %s' % (before, data())})
+                break
+
+
+# ---------------------------------------------------------------------------------------------------------------------
+# operations of a history that overlap in time: one template object is shared by all threads of a server, so a render can
+# run while another thread is in the middle of cook / munge / pickling / copying the same object (and the other way round).
+# Such a render gives what a new template built from the source and defaults BEFORE the operation gives, or what one built
+# from those AFTER it gives (for cook, munge to the same source, pickle and deepcopy the two are the same) -- never something
+# in between.  run_overlapped stops the first thread after k source lines of the package (the yield points of C18's line
+# scheduler harness/sched.py; here only one thread is traced, which is several times cheaper), lets the second run to its end
+# (or until it has to wait for the cook lock), then finishes the first.
+
+def write_file(path, text):
+    with open(path, 'w') as f:
+        f.write(text)
+
+
+def run_overlapped(a, b, k, pkg):
+    """thread A runs body `a` and is stopped when it has executed k source lines of the package (line events, as the
+    yield points of harness/sched.py); thread B then runs body `b` until it ends or has to wait for the cook lock (A may hold
+    it); then A goes on and both finish.  With b = None, A runs alone.  Returns ([result of a, result of b], lines A executed);
+    a result is ('ok', value) | ('raise', text) | ('hang', '')"""
+    import DocumentTemplate.DT_String as DTS
+    cond = threading.Condition()
+    resume = threading.Event()
+    st = {'steps': 0, 'paused': False, 'blocked': False, 'done': set()}
+    results = [('hang', ''), ('hang', '') if b is not None else None]
+
+    class HandoffLock:
+        def __init__(self):
+            self.real = threading.Lock()
+
+        def acquire(self, *args, **kw):
+            if not self.real.acquire(False):
+                with cond:
+                    st['blocked'] = True
+                    cond.notify_all()
+                self.real.acquire()
+            return True
+
+        def release(self):
+            self.real.release()
+
+        def __enter__(self):
+            self.acquire()
+            return self
+
+        def __exit__(self, *exc):
+            self.real.release()
+            return False
+
+    def local(frame, event, arg):
+        if event == 'line':
+            if st['steps'] == k and not st['paused']:
+                with cond:
+                    st['paused'] = True
+                    cond.notify_all()
+                resume.wait(60)
+            st['steps'] += 1
+        return local
+
+    def tracer(frame, event, arg):
+        fn = frame.f_code.co_filename
+        if not fn.startswith(pkg) or '/tests/' in fn:
+            return None
+        return local
+
+    def target(i, body, traced):
+        def go():
+            if traced:
+                sys.settrace(tracer)
+            try:
+                results[i] = ('ok', body())
+            except BaseException as e:  # noqa
+                results[i] = ('raise', '%s: %s' % (type(e).__name__, str(e)[:200]))
+            finally:
+                sys.settrace(None)
+                with cond:
+                    st['done'].add(i)
+                    cond.notify_all()
+        return go
+    old_lock = DTS.COOKLOCK
+    DTS.COOKLOCK = HandoffLock()
+    try:
+        ta = threading.Thread(target=target(0, a, True), daemon=True)
+        ta.start()
+        with cond:
+            cond.wait_for(lambda: st['paused'] or 0 in st['done'], 60)
+        if b is not None:
+            tb = threading.Thread(target=target(1, b, False), daemon=True)
+            tb.start()
+            with cond:
+                cond.wait_for(lambda: st['blocked'] or 1 in st['done'], 60)
+        resume.set()
+        ta.join(60)
+        if b is not None:
+            tb.join(60)
+    finally:
+        resume.set()
+        DTS.COOKLOCK = old_lock
+    return results, st['steps']
+
+
+def replay_ops(cls, init, ops, subs, path=None):
+    """the template object after a history, and what 'the same source and defaults' are then.  With `path` the template is
+    file-based (HTMLFile): its source is the content of the file, editing it = rewriting the file and cook()"""
+    s0, m0, kw0 = init
+    if path:
+        from DocumentTemplate import HTMLFile
+        write_file(path, SOURCES[s0])
+        t = HTMLFile(path, dict(m0), **dict(kw0))
+    else:
+        t = cls(SOURCES[s0], dict(m0), **dict(kw0))
+    cur = {'src': s0, 'm': m0, 'kw': kw0, 'later': []}
+    for op in ops:
+        k = op[0]
+        if path and k in ('mungeSrc', 'mungeBoth'):
+            write_file(path, SOURCES[op[1]])
+            if k == 'mungeSrc':
+                t.cook()
+                cur['src'] = op[1]
+            else:
+                t.munge(None, dict(op[2]), **dict(op[3]))
+                cur['src'], cur['m'], cur['kw'], cur['later'] = op[1], op[2], op[3], []
+        elif k == 'render':
+            call(t, op[1], subs)
+        elif k == 'pickle':
+            t = pickle.loads(pickle.dumps(t))
+        elif k == 'deepcopy':
+            t = copy.deepcopy(t)
+        elif k == 'cook':
+            t.cook()
+        else:
+            apply_persistent(t, op)
+            if k == 'mungeSrc':
+                cur['src'] = op[1]
+            elif k == 'mungeVars':
+                cur['m'], cur['kw'], cur['later'] = op[1], op[2], []
+            elif k == 'mungeBoth':
+                cur['src'], cur['m'], cur['kw'], cur['later'] = op[1], op[2], op[3], []
+            else:
+                cur['later'].append(op)
+    return t, cur
+
+
+def fresh_result(cls, cur, inputs, src=None):
+    f = cls(SOURCES[cur['src'] if src is None else src], dict(cur['m']), **dict(cur['kw']))
+    for po in cur['later']:
+        apply_persistent(f, po)
+    out, calls, _ = call(f, inputs)
+    return out, calls
+
+
+def sample_points(r, n, tier):
+    """where to stop the first thread: the first and the last lines, and a stratified sample of the lines in between"""
+    edge = 3 if tier == 'quick' else 12
+    pts = set(range(0, min(n, edge) + 1)) | set(range(max(0, n - edge), n + 1))
+    strata = 8 if tier == 'quick' else 120
+    for i in range(strata):
+        lo, hi = n * i // strata, n * (i + 1) // strata
+        if hi > lo:
+            pts.add(r.randrange(lo, hi))
+    return sorted(pts)
+
+
+OVERLAP_CLASSES = CLASS_NAMES + ['HTMLFile (source = content of its file; "munge to a source" = the file is rewritten, then cook())']
+OVERLAP_OPS = ['cook', 'munge to the same source', 'munge to another source', 'pickle round trip', 'deepcopy']
+
+
+def overlap_check(res, r, n, tier):
+    import DocumentTemplate
+    pkg = os.path.dirname(DocumentTemplate.__file__) + os.sep
+    classes = template_classes()
+    off = r.randrange(len(SOURCES))
+    tmpdir = tempfile.mkdtemp(prefix='c17_')
+    for case in range(n):
+        # HTML, HTML with guards, and (every fifth case) a file-based template: its reference is the string template
+        cls_idx = case % 2 if case % 5 != 3 else 2
+        cls = classes[cls_idx % 2]
+        path = os.path.join(tmpdir, 'c%d.dtml' % case) if cls_idx == 2 else None
+        s0 = (case + off) % len(SOURCES) if case < len(SOURCES) else r.randrange(len(SOURCES))
+        init = [s0, gen_dict(r, 1), gen_dict(r, 1)]
+        prelude = gen_history(r, 3, s0) if r.random() < 0.85 else []
+        if r.random() < 0.2:
+            prelude.append([r.choice(('pickle', 'deepcopy'))])      # a history, but not compiled at the moment
+        subs = new_subs(cls)
+        for st in subs.values():
+            st.cook()
+        _, cur = replay_ops(cls, init, prelude, subs, path)
+        kind = OVERLAP_OPS[case % len(OVERLAP_OPS)] if case < 3 * len(OVERLAP_OPS) else r.choice(OVERLAP_OPS)
+        new_src = cur['src']
+        if kind == 'munge to another source':
+            new_src = r.choice([i for i in range(len(SOURCES)) if i != cur['src']])
+        inputs = gen_inputs(r, r.choice((cur['src'], new_src)))
+        allowed = [fresh_result(cls, cur, inputs), fresh_result(cls, cur, inputs, new_src)]
+
+        def operate(t):
+            if kind == 'cook':
+                t.cook()
+            elif kind.startswith('munge') and path:
+                write_file(path, SOURCES[new_src])
+                t.cook()
+            elif kind.startswith('munge'):
+                t.munge(SOURCES[new_src])
+            elif kind == 'pickle round trip':
+                return pickle.loads(pickle.dumps(t))
+            else:
+                return copy.deepcopy(t)
+            return t
+
+        def one(first, k):
+            t, _ = replay_ops(cls, init, prelude, subs, path)
+            bodies = [lambda: operate(t), lambda: call(t, inputs, subs)]
+            if first is None:
+                results, steps = run_overlapped(bodies[k], None, 10 ** 9, pkg)
+                return t, results, steps
+            results, steps = run_overlapped(bodies[first], bodies[1 - first], k, pkg)
+            return t, (results if first == 0 else results[::-1]), steps
+        res.evaluations += 1
+        res.count('overlapping operations: render while another thread is inside ' + kind)
+        res.nt(('overlap', cur['src'], new_src, kind, cls_idx))
+        res.count('overlapping operations: class=' + OVERLAP_CLASSES[cls_idx])
+        case_show = {'class': OVERLAP_CLASSES[cls_idx], 'init': [SOURCES[s0], init[1], init[2]], 'history before': show_ops(prelude),
+                     'operation': kind, 'new source': SOURCES[new_src], 'render inputs': inputs}
+        failed = False
+        compiled = False
+        for op in prelude:
+            compiled = False if op[0] in ('pickle', 'deepcopy') else (True if op[0] in ('render', 'cook') or op[0].startswith('munge') else compiled)
+        for first in (0, 1):
+            if first == 0 and kind in ('pickle round trip', 'deepcopy') and not compiled:
+                # known finding C17-getstate-while-first-render (replayed by harness/findings_probe.py): __getstate__ walks the
+                # live __dict__ while the other thread's first render adds the compiled data to it
+                res.count('left out (known finding): pickle / deepcopy stopped part-way while the first render compiles')
+                continue
+            # how many lines the first thread executes when it runs alone
+            _, _, steps = one(None, first)
+            pts = sample_points(r, steps, tier)
+            if first == 1:
+                pts = pts[::3] if tier == 'quick' else pts
+            for k in pts:
+                t, results, _ = one(first, k)
+                res.count('schedules: %s stopped part-way, the %s runs, the first one finishes'
+                          % (('operation', 'render') if first == 0 else ('render', 'operation')))
+                who = ('the operation is stopped after %d of its %d lines, the render runs, the operation finishes' if first == 0 else
+                       'the render is stopped after %d of its %d lines, the operation runs, the render finishes') % (k, steps)
+                if results[0][0] != 'ok':
+                    res.oracle_fail.append({'case': dict(case_show, schedule=who), 'what': '%s: the operation ended with %r' % (who, results[0])})
+                    failed = True
+                elif results[1][0] != 'ok':
+                    res.oracle_fail.append({'case': dict(case_show, schedule=who), 'what': '%s: the render ended with %r' % (who, results[1])})
+                    failed = True
+                else:
+                    out, calls, changed = results[1][1]
+                    if not any(same((out, calls), a) for a in allowed):
+                        res.oracle_fail.append({'case': dict(case_show, schedule=who),
+                                                'what': '%s: the render gives %r (calls %r); a new template built from the source and defaults '
+                                                        'before the operation gives %r, one built from those after it gives %r'
+                                                        % (who, out, calls, allowed[0], allowed[1])})
+                        failed = True
+                    for c in changed:
+                        res.oracle_fail.append({'case': dict(case_show, schedule=who), 'what': '%s: %s' % (who, c)})
+                        failed = True
+                    # afterwards: the object (and the restored / copied one) renders like a new template
+                    if not failed:
+                        for obj in {id(t): t, id(results[0][1]): results[0][1]}.values():
+                            out, calls, _ = call(obj, inputs, subs)
+                            if not same((out, calls), allowed[1]):
+                                res.oracle_fail.append({'case': dict(case_show, schedule=who),
+                                                        'what': '%s: afterwards the template gives %r, a new template built from the same '
+                                                                'source and defaults gives %r' % (who, out, allowed[1][0])})
+                                failed = True
+                if failed:
+                    break
+            if failed:
+                break
+    for fn in os.listdir(tmpdir):
+        os.unlink(os.path.join(tmpdir, fn))
+    os.rmdir(tmpdir)
+
+
+def show_ops(ops):
+    return [[o[0]] + [SOURCES[x] if (o[0] in ('mungeSrc', 'mungeBoth') and j == 0) else x for j, x in enumerate(o[1:])] for o in ops]
+
+
 def file_template_check(res):
     from DocumentTemplate import HTMLFile
     d = tempfile.mkdtemp(prefix='c17_')
@@ -605,14 +1284,87 @@ def file_template_check(res):
         os.rmdir(d)
 
 
+def file_history_check(res, r, n, maxlen):
+    """histories of a file-based template over render / pickle round trip / deepcopy / cook / the file is rewritten.  The file
+    is read when the template is compiled ("the file will not be read until the document template is used the first time";
+    restored from a pickle "the file will be re-read"): every render equals the render of a STRING template built from the
+    content the file had when the template was last compiled; every pickle holds the file name and none of the contents"""
+    from DocumentTemplate import HTMLFile
+    HTML = template_classes()[0]
+    d = tempfile.mkdtemp(prefix='c17_')
+    try:
+        for case in range(n):
+            path = os.path.join(d, 'h%d.dtml' % case)
+            content = r.randrange(len(SOURCES))
+            write_file(path, SOURCES[content])
+            m, kw = gen_dict(r, 1), gen_dict(r, 1)
+            t = HTMLFile(path, dict(m), **dict(kw))
+            subs = new_subs(HTML)
+            compiled, had, first = None, {content}, SOURCES[content]
+            ops = []
+            res.evaluations += 1
+            res.count('file-based template histories')
+            for idx in range(r.randint(3, maxlen)):
+                c = r.random()
+                k = 'render' if c < 0.45 or idx == 0 else 'pickle' if c < 0.6 else 'deepcopy' if c < 0.7 else 'cook' if c < 0.8 else 'rewrite'
+                what = None
+                if k == 'render':
+                    if compiled is None:
+                        compiled = content
+                    inputs = gen_inputs(r, compiled)
+                    ops.append([k, inputs])
+                    out, calls, changed = call(t, inputs, subs)
+                    f = HTML(SOURCES[compiled], dict(m), **dict(kw))
+                    fout, fcalls, _ = call(f, inputs)
+                    if not same((out, calls), (fout, fcalls)):
+                        what = ('op %d: the file-based template gives %r (calls %r); the file held %r when it was last compiled, and a '
+                                'string template of that text gives %r (calls %r)' % (idx, out, calls, SOURCES[compiled], fout, fcalls))
+                    elif changed:
+                        what = 'op %d: %s' % (idx, changed[0])
+                elif k == 'rewrite':
+                    content = r.randrange(len(SOURCES))
+                    had.add(content)
+                    ops.append([k, SOURCES[content]])
+                    write_file(path, SOURCES[content])
+                elif k == 'cook':
+                    ops.append([k])
+                    t.cook()
+                    compiled = content
+                else:
+                    ops.append([k])
+                    if k == 'pickle':
+                        data = pickle.dumps(t)
+                        t = pickle.loads(data)
+                        leaked = [SOURCES[i] for i in had if len(SOURCES[i]) > 12 and SOURCES[i].encode() in data]
+                        if leaked:
+                            what = 'op %d: the pickle of a file-based template contains the content of its file: %r' % (idx, leaked[0])
+                        elif path.encode() not in data:
+                            what = 'op %d: the pickle of a file-based template does not contain the file name' % idx
+                    else:
+                        t = copy.deepcopy(t)
+                    if what is None and any(a.startswith('_v_') for a in t.__dict__):
+                        what = 'op %d: the restored / copied template carries compiled data' % idx
+                    compiled = None
+                res.count('file op=' + k)
+                if what:
+                    res.oracle_fail.append({'case': {'class': 'HTMLFile', 'the file holds': first, 'defaults': [m, kw], 'ops': ops},
+                                            'what': what})
+                    break
+            res.nt(('file', first) + tuple(o[0] for o in ops))
+    finally:
+        for fn in os.listdir(d):
+            os.unlink(os.path.join(d, fn))
+        os.rmdir(d)
+
+
 def show_case(init, ops, cls_idx):
     return {'class': CLASS_NAMES[cls_idx], 'init': [SOURCES[init[0]], init[1], init[2]],
-            'ops': [[o[0]] + [SOURCES[x] if (o[0] in ('mungeSrc', 'mungeBoth') and j == 0) else x for j, x in enumerate(o[1:])] for o in ops],
+            'ops': show_ops(ops),
             'inputs': "[key, code]: key = name (keyword argument) | 'm:name' (in the mapping) | 'c:name' (client attribute) | "
                       "'-name' (left out of the base mapping); code = index into props.c17.VALUES[name], or the integer itself"}
 
 
-def check(res, r, n, maxlen, have_driver, streaks=0, idioms=0):
+def check(res, r, n, maxlen, have_driver, streaks=0, idioms=0, calls=0, files=0, overlaps=0, tier='quick'):
     hist = []
     for j in range(n):
         init = [r.randrange(len(SOURCES)), gen_dict(r), gen_dict(r)]
@@ -623,6 +1375,13 @@ def check(res, r, n, maxlen, have_driver, streaks=0, idioms=0):
                 continue
             init = [src, gen_dict(r, 1) if r.random() < 0.4 else [], gen_dict(r, 1) if r.random() < 0.4 else []]
             hist.append((init, gen_streak(r, src, min(maxlen, 8)), (rep + src) % 2 == 1, 'streak'))
+    # histories whose renders use every calling convention: client = None / one object / a tuple ("path") of 0..3 objects,
+    # mapping = dict / None / another mapping object / the namespace of a calling template (a TemplateDict)
+    rc = common.rng('C17-calls')
+    for j in range(calls):
+        src = j % len(SOURCES) if j < 2 * len(SOURCES) else rc.randrange(len(SOURCES))
+        init = [src, gen_dict(rc), gen_dict(rc)]
+        hist.append((init, gen_history(rc, maxlen, src, conv=0.8), j % 3 == 1, 'calling conventions'))
     states = [None] * len(hist)
     if have_driver:
         resp = common.run_driver([{'op': 'tmpl', 'init': init, 'ops': ops} for init, ops, _, _ in hist])
@@ -637,15 +1396,18 @@ def check(res, r, n, maxlen, have_driver, streaks=0, idioms=0):
         res.evaluations += 1
         cls_idx = 1 if guarded else 0
         oracle, corr = run_history(init, ops, ms, res, cls_idx, fresh_log)
-        res.nt((init[0] if kind == 'streak' else -1, cls_idx) + tuple(o[0] for o in ops))
+        res.nt((init[0] if kind != 'random' else -1, cls_idx) + tuple(o[0] for o in ops))
         res.count('history=' + kind)
         res.count('class=' + ('guarded' if guarded else 'HTML'))
         for o in ops:
             res.count('op=' + o[0])
             if o[0] == 'render':
+                conv = dict(e for e in o[1] if e[0][0] == '@')
+                res.count('call: client=%s' % ('none or one object' if '@client' not in conv else 'tuple of %d' % conv['@client']))
+                res.count('call: mapping=%s' % MAPPING_KINDS[conv.get('@mapping', 0)])
                 for key, _ in o[1]:
-                    res.count('binding=' + ('keyword' if ':' not in key and key[0] != '-' else
-                                            {'m': 'mapping', 'c': 'client', '-': 'base name left out'}[key[0]]))
+                    if binding_kind(key):
+                        res.count('binding=' + binding_kind(key))
         for w in oracle:
             res.oracle_fail.append({'case': show_case(init, ops, cls_idx), 'what': w})
         if ms is not None:
@@ -656,6 +1418,12 @@ def check(res, r, n, maxlen, have_driver, streaks=0, idioms=0):
     recheck_fresh(res, fresh_log, r, 600 if streaks else 300)
     if idioms:
         idiom_check(res, r, idioms)
+    if calls:
+        subcall_check(res, common.rng('C17-subcalls'), calls * 2)
+    if files:
+        file_history_check(res, common.rng('C17-files'), files, maxlen)
+    if overlaps:
+        overlap_check(res, common.rng('C17-overlap'), overlaps, tier)
     file_template_check(res)
 
 
@@ -672,24 +1440,34 @@ def run(res, tier, have_driver):
                 'render compared with a new template built through the public API from the same source and defaults, and repeated; '
                 'caller data (mapping, keywords, client) deep-compared; results of new templates recomputed later in another order; '
                 'optional-name idioms against a Python reference, as consecutive renders of one template and as records of one '
-                'dtml-in mapping; file-based template; non-trivial = distinct (kind, class, operation sequence) and idiom templates'
+                'dtml-in mapping; file-based template; histories whose renders use every calling convention (client None / object / '
+                'tuple of 0..3 objects, mapping dict / None / other mapping object / the namespace of a calling template, which is '
+                'taken apart afterwards: exactly the caller\'s layers, old level); templates rendering sub-templates on their own '
+                'namespace in every call form against a name-lookup reference; file-based histories incl. rewriting the file against '
+                'a string template of the content at the last compilation; renders overlapping cook / munge / pickle / deepcopy of '
+                'the same object in another thread at sampled lines (one thread stopped after k lines): result = new template before or after the '
+                'operation; non-trivial = distinct (kind, class, operation sequence), idiom templates, sub-template programs, '
+                '(source, operation) pairs of overlapping cases'
                 % len(SOURCES))
     if tier == 'quick':
-        check(res, r, 700, 8, have_driver, streaks=8, idioms=300)
+        check(res, r, 700, 8, have_driver, streaks=8, idioms=300, calls=200, files=150, overlaps=60)
     else:
-        check(res, r, 8000, 14, have_driver, streaks=60, idioms=3000)
+        check(res, r, 8000, 14, have_driver, streaks=60, idioms=3000, calls=3000, files=3000, overlaps=150, tier='thorough')
     res.assumptions += ['compiling and rendering a compiled program are parameters of the state-machine model (Engine.parse / '
                         'Engine.exec); that rendering a compiled program is a function of (program, defaults, variables, inputs) '
                         'only — i.e. that compiled tags keep no per-render state that a later render reads — is what the oracle '
                         'tests (history vs new template, with namespaces that bind different sets of names) and what C18\'s '
                         'shared-write monitor lists']
     res.partial.append('purity of Engine.exec (no state kept on compiled tags between renders) is checked by the oracle, not proved')
+    res.partial.append('the state machine model has atomic operations: that a render overlapping cook / munge / pickle / deepcopy in '
+                       'another thread sees the state before or after the operation is explored by the line scheduler (sampled '
+                       'lines), not proved; C18 holds the interleaving model')
 
 
 def search_more(res, tier):
     r = common.rng('C17-more')
     res2 = common.Result('C17')
-    check(res2, r, 2500, 12, False, streaks=20, idioms=1000)
+    check(res2, r, 2500, 12, False, streaks=20, idioms=1000, calls=800, files=600, overlaps=40)
     return res2.oracle_fail
 
 
